@@ -2,7 +2,7 @@
 import ast
 
 from ..model import AnalysisError, dotted, unparse
-from ..util import sym_env, sym_resolve, POS, FACTS, FACTS_I, U, enum_paths, walk_no_nested, is_yield_call
+from ..util import resolved_text, sym_env, sym_resolve, POS, FACTS, FACTS_I, U, enum_paths, walk_no_nested, is_yield_call
 from ..paths import call_attr, call_name
 
 T = 'scales/timer_queue.py'
@@ -176,6 +176,13 @@ def r2(ctx, tq, sch, wk):
   if pk is not None:
     rp = [n for n in walk_no_nested(pk.node) if isinstance(n, ast.Return)]
     okp = len(rp) == 1 and U(rp[0].value).replace(' ', '') == 'self._queue[0][:3]'
+    if not okp and len(rp) == 1:
+      # the three fields named one by one: (h[0], h[1], h[2]) with h the head of the queue
+      for ev_, ex_ in enum_paths(ctx, pk):
+        r_ = [e for e in ev_ if e.kind == 'ret']
+        if r_:
+          t_ = resolved_text(ev_, ev_.index(r_[-1]), r_[-1].node.value)
+          okp = t_ in ('(self._queue[0][0],self._queue[0][1],self._queue[0][2])', '[self._queue[0][0],self._queue[0][1],self._queue[0][2]]')
     ctx.ob('C10.R2', pk, 'peek reads the first three fields of the head', okp, 'peek returns %s' % [U(r.value) for r in rp], why)
   un = [st for st in ast.walk(wk.node) if isinstance(st, ast.Assign) and isinstance(st.targets[0], ast.Tuple) and isinstance(st.value, (ast.Call, ast.Subscript))]
   peek_un = [st for st in un if is_peek(st.value)]
